@@ -973,7 +973,7 @@ pub struct W5Check {
 }
 
 impl W5Check {
-    fn gen_case(&self, rs: u64, tier: Tier) -> Value {
+    fn gen_case(&self, rs: u64, tier: Tier, run: u64) -> Value {
         let steer = crate::framework::active_steering();
         let no_compaction = steer.iter().any(|s| s == "compact-races-writer");
         let whole_pages = steer.iter().any(|s| s == "compressed-inplace-rewrite");
@@ -1117,6 +1117,45 @@ impl W5Check {
                     }
                 }
             }
+            _ if tier == Tier::Thorough && run % 2 == 0 => {
+                // C11 thorough tier: ENUMERATE ordered pairs of the catalogue (run index -> pair), two
+                // threads, everything else (allocator state, sizes, schedule) still drawn from the seed
+                let t2 = tag.wrapping_add(2);
+                let t4 = tag.wrapping_add(4);
+                let catalogue: Vec<Vec<TOp>> = vec![
+                    vec![TOp::Append { r: 0, len: 100, tag: t2 }],
+                    vec![TOp::Append { r: 1, len: 9000, tag: t2 }],
+                    vec![TOp::Append { r: 0, len: 70000, tag: t2 }],
+                    vec![TOp::Append { r: 1, len: 300_000, tag: t2 }],
+                    vec![TOp::WriteAt { r: 0, at: 3, len: 5000, tag: t4 }],
+                    vec![TOp::Truncate { r: 0, to: 10 }],
+                    vec![TOp::Rename { r: 1 }],
+                    vec![TOp::Remove { r: 1 }],
+                    vec![TOp::Create { r: 2 }, TOp::Append { r: 2, len: 5000, tag: t4 }],
+                    vec![TOp::FlushRegion { r: 0 }],
+                    vec![TOp::Flush],
+                    vec![TOp::Compact],
+                    vec![TOp::BgCompact, TOp::SyncBg],
+                    vec![TOp::BgCompact],
+                    vec![TOp::ReadOnce { of: 0, r: 0 }, TOp::ReadOnce { of: 1, r: 1 }],
+                    vec![TOp::VPush { n: 3 }, TOp::VWrite],
+                    vec![TOp::VPush { n: 2049 }, TOp::VWrite],
+                    vec![TOp::VPush { n: 40_000 }, TOp::VFlush],
+                    vec![TOp::VPush { n: 5 }, TOp::VCommit, TOp::VRollback],
+                    vec![TOp::VRead { v: 0, how: 0, a: 1, b: 50 }, TOp::VRead { v: 1, how: 3, a: 7, b: 9 }],
+                    vec![TOp::VRead { v: 0, how: 2, a: 0, b: 60 }, TOp::VRead { v: 1, how: 1, a: 0, b: 0 }],
+                ];
+                let n = catalogue.len() as u64;
+                let pair = (run / 2) % (n * n);
+                let (i, j) = ((pair / n) as usize, (pair % n) as usize);
+                cfg.vec_kinds = (0..nthreads).map(|t| (rs as usize >> (4 * t)) % 4).collect();
+                cfg.crossover = if run % 4 == 0 { 0 } else { 1 << 30 };
+                threads[0] = catalogue[i].clone();
+                threads[1] = catalogue[j].clone();
+                for th in threads.iter_mut().skip(2) {
+                    th.push(gen_region_op(&mut rng, &mut tag, nthreads, 2));
+                }
+            }
             _ if nthreads >= 3 && rng.chance(1, 3) => {
                 // C11 templates: triples whose lock sets form the cycles listed in DESIGN appendix A
                 let rd = |rng: &mut Rng| TOp::VRead { v: 0, how: *rng.pick(&[0u8, 3, 2]), a: rng.next() as usize >> 16, b: rng.next() as usize >> 16 };
@@ -1209,7 +1248,7 @@ impl Check for W5Check {
         }
     }
     fn generate(&self, seed: u64, run: u64, tier: Tier) -> Value {
-        self.gen_case(run_seed(seed, self.id, run), tier)
+        self.gen_case(run_seed(seed, self.id, run), tier, run)
     }
     fn exec(&self, case: &Value, stats: &mut Stats) -> RunResult<()> {
         let cfg = Cfg::from_json(&case["cfg"]);
